@@ -868,7 +868,8 @@ func (m *monC05) AfterBegin(w *World, _ abci.ResponseBeginBlock) {
 
 type monC17 struct{ BaseMonitor }
 
-func (m *monC17) Name() string { return "C17" }
+func (m *monC17) Name() string  { return "C17" }
+func (m *monC17) Init(w *World) { w.armedShadow = w.armedShadow || w.PropOverride == "C17" }
 
 func (m *monC17) AfterBlock(w *World) {
 	m.check(w, w.CCtx(), &QuerySpec{Kind: "supply.total", Limit: 100})
